@@ -40,15 +40,15 @@ Theorem C13_telescope_sum_sorted : forall (l : list Z) (k : nat), Sorted.Strongl
 Proof. exact (@SumChainsSem.telescope_sum_sorted). Qed.
 Print Assumptions C13_telescope_sum_sorted.
 
-Theorem C13_supported_x : forall (sym_lt : Ast.sym -> Ast.sym -> Prop) (P : list Ast.stmt) (I : list gatom) (T : interp) (a : gatom), sym_order sym_lt -> (forall (line : nat) (h : Ast.head) (b : list Ast.bodyelem), In (Ast.SRule line h b) P -> xhead (gpred a) h) -> stable sym_lt P I T -> T a -> In a I \/ (exists (line : nat) (h : Ast.head) (b : list Ast.bodyelem) (s : subst), In (Ast.SRule line h b) P /\ derives_x sym_lt T (gvars_rule h b) s h a /\ body_sat sym_lt (gvars_rule h b) T T s b).
+Theorem C13_supported_x : forall (sym_lt : Ast.sym -> Ast.sym -> Prop) (P : list Ast.stmt) (I : list gatom) (T : interp) (a : gatom), (forall (line : nat) (h : Ast.head) (b : list Ast.bodyelem), In (Ast.SRule line h b) P -> xhead h) -> stable sym_lt P I T -> T a -> In a I \/ (exists (line : nat) (h : Ast.head) (b : list Ast.bodyelem) (s : subst), In (Ast.SRule line h b) P /\ derives_x sym_lt T (gvars_rule h b) s h a /\ body_sat sym_lt (gvars_rule h b) T T s b).
 Proof. exact (@SumChainsSem.supported_x). Qed.
 Print Assumptions C13_supported_x.
 
-Theorem C13_chain_meaning : forall (sym_lt : Ast.sym -> Ast.sym -> Prop) (gs : list string), NoDup gs -> (forall x : string, In x gs -> ~ In x ChainSemGrouped.reserved) -> forall (p ch nx : string) (P : list Ast.stmt) (I : list (string * list Ast.sym)) (T : interp), sym_order sym_lt -> (forall (line : nat) (h : Ast.head) (b : list Ast.bodyelem), In (Ast.SRule line h b) P -> xhead (ch, ChainSemGrouped.k1 gs) h) -> In (chain_rule_base_g gs p ch) P -> In (chain_rule_step_g gs ch nx) P -> (forall (line : nat) (h : Ast.head) (b : list Ast.bodyelem), In (Ast.SRule line h b) P -> In (ch, ChainSemGrouped.k1 gs) (ChainSem.head_names h) -> Ast.SRule line h b = chain_rule_base_g gs p ch \/ Ast.SRule line h b = chain_rule_step_g gs ch nx) -> (forall vs : list Ast.sym, Datatypes.length vs = ChainSemGrouped.k1 gs -> ~ In (ch, vs) I) -> stable sym_lt P I T -> forall g : list Ast.sym, Datatypes.length g = Datatypes.length gs -> forall D : list Ast.sym, Sorted.StronglySorted sym_lt D -> (forall v : Ast.sym, T (p, g ++ v :: nil) -> In v D) -> (forall a b : Ast.sym, T (nx, g ++ a :: b :: nil) <-> Chain.consecutive Ast.sym D a b) -> forall d : Ast.sym, T (ch, g ++ d :: nil) <-> In d D /\ (exists v : Ast.sym, T (p, g ++ v :: nil) /\ (d = v \/ sym_lt d v)).
+Theorem C13_chain_meaning : forall (sym_lt : Ast.sym -> Ast.sym -> Prop) (gs : list string), NoDup gs -> (forall x : string, In x gs -> ~ In x ChainSemGrouped.reserved) -> forall (p ch nx : string) (P : list Ast.stmt) (I : list (string * list Ast.sym)) (T : interp), sym_order sym_lt -> (forall (line : nat) (h : Ast.head) (b : list Ast.bodyelem), In (Ast.SRule line h b) P -> xhead h) -> In (chain_rule_base_g gs p ch) P -> In (chain_rule_step_g gs ch nx) P -> (forall (line : nat) (h : Ast.head) (b : list Ast.bodyelem), In (Ast.SRule line h b) P -> In (ch, ChainSemGrouped.k1 gs) (ChainSem.head_names h) -> Ast.SRule line h b = chain_rule_base_g gs p ch \/ Ast.SRule line h b = chain_rule_step_g gs ch nx) -> (forall vs : list Ast.sym, Datatypes.length vs = ChainSemGrouped.k1 gs -> ~ In (ch, vs) I) -> stable sym_lt P I T -> forall g : list Ast.sym, Datatypes.length g = Datatypes.length gs -> forall D : list Ast.sym, Sorted.StronglySorted sym_lt D -> (forall v : Ast.sym, T (p, g ++ v :: nil) -> In v D) -> (forall a b : Ast.sym, T (nx, g ++ a :: b :: nil) <-> Chain.consecutive Ast.sym D a b) -> forall d : Ast.sym, T (ch, g ++ d :: nil) <-> In d D /\ (exists v : Ast.sym, T (p, g ++ v :: nil) /\ (d = v \/ sym_lt d v)).
 Proof. exact (@SumChainsSem.chain_meaning). Qed.
 Print Assumptions C13_chain_meaning.
 
-Theorem C13_chain_pred_meaning : forall (sym_lt : Ast.sym -> Ast.sym -> Prop) (gs : list string), NoDup gs -> (forall x : string, In x gs -> ~ In x ChainSemGrouped.reserved) -> forall (dom mn nx p ch : string) (P : Ast.program) (I : list (string * list Ast.sym)) (T : interp), sym_order sym_lt -> xfrag P ((mn, ChainSemGrouped.k1 gs) :: (nx, ChainSemGrouped.k2 gs) :: (ch, ChainSemGrouped.k1 gs) :: nil) -> In (ChainSemGrouped.min_rule_g gs dom mn) P -> In (ChainSemGrouped.next_rule_base_g gs dom mn nx) P -> In (ChainSemGrouped.next_rule_step_g gs dom nx) P -> In (chain_rule_base_g gs p ch) P -> In (chain_rule_step_g gs ch nx) P -> (forall (line : nat) (h : Ast.head) (b : list Ast.bodyelem), In (Ast.SRule line h b) P -> In (mn, ChainSemGrouped.k1 gs) (ChainSem.head_names h) -> Ast.SRule line h b = ChainSemGrouped.min_rule_g gs dom mn) -> (forall (line : nat) (h : Ast.head) (b : list Ast.bodyelem), In (Ast.SRule line h b) P -> In (nx, ChainSemGrouped.k2 gs) (ChainSem.head_names h) -> Ast.SRule line h b = ChainSemGrouped.next_rule_base_g gs dom mn nx \/ Ast.SRule line h b = ChainSemGrouped.next_rule_step_g gs dom nx) -> (forall (line : nat) (h : Ast.head) (b : list Ast.bodyelem), In (Ast.SRule line h b) P -> In (ch, ChainSemGrouped.k1 gs) (ChainSem.head_names h) -> Ast.SRule line h b = chain_rule_base_g gs p ch \/ Ast.SRule line h b = chain_rule_step_g gs ch nx) -> (forall vs : list Ast.sym, Datatypes.length vs = ChainSemGrouped.k1 gs -> ~ In (mn, vs) I) -> (forall vs : list Ast.sym, Datatypes.length vs = ChainSemGrouped.k2 gs -> ~ In (nx, vs) I) -> (forall vs : list Ast.sym, Datatypes.length vs = ChainSemGrouped.k1 gs -> ~ In (ch, vs) I) -> stable sym_lt P I T -> forall g : list Ast.sym, Datatypes.length g = Datatypes.length gs -> (exists l : list Ast.sym, forall v : Ast.sym, T (dom, g ++ v :: nil) <-> In v l) -> (forall v : Ast.sym, T (p, g ++ v :: nil) -> T (dom, g ++ v :: nil)) -> exists D : list Ast.sym, Sorted.StronglySorted sym_lt D /\ (forall v : Ast.sym, T (dom, g ++ v :: nil) <-> In v D) /\ (forall v : Ast.sym, T (mn, g ++ v :: nil) <-> hd_error D = Some v) /\ (forall a b : Ast.sym, T (nx, g ++ a :: b :: nil) <-> Chain.consecutive Ast.sym D a b) /\ (forall d : Ast.sym, T (ch, g ++ d :: nil) <-> In d D /\ (exists v : Ast.sym, T (p, g ++ v :: nil) /\ (d = v \/ sym_lt d v))).
+Theorem C13_chain_pred_meaning : forall (sym_lt : Ast.sym -> Ast.sym -> Prop) (gs : list string), NoDup gs -> (forall x : string, In x gs -> ~ In x ChainSemGrouped.reserved) -> forall (dom mn nx p ch : string) (P : Ast.program) (I : list (string * list Ast.sym)) (T : interp), sym_order sym_lt -> xfrag P -> In (ChainSemGrouped.min_rule_g gs dom mn) P -> In (ChainSemGrouped.next_rule_base_g gs dom mn nx) P -> In (ChainSemGrouped.next_rule_step_g gs dom nx) P -> In (chain_rule_base_g gs p ch) P -> In (chain_rule_step_g gs ch nx) P -> (forall (line : nat) (h : Ast.head) (b : list Ast.bodyelem), In (Ast.SRule line h b) P -> In (mn, ChainSemGrouped.k1 gs) (ChainSem.head_names h) -> Ast.SRule line h b = ChainSemGrouped.min_rule_g gs dom mn) -> (forall (line : nat) (h : Ast.head) (b : list Ast.bodyelem), In (Ast.SRule line h b) P -> In (nx, ChainSemGrouped.k2 gs) (ChainSem.head_names h) -> Ast.SRule line h b = ChainSemGrouped.next_rule_base_g gs dom mn nx \/ Ast.SRule line h b = ChainSemGrouped.next_rule_step_g gs dom nx) -> (forall (line : nat) (h : Ast.head) (b : list Ast.bodyelem), In (Ast.SRule line h b) P -> In (ch, ChainSemGrouped.k1 gs) (ChainSem.head_names h) -> Ast.SRule line h b = chain_rule_base_g gs p ch \/ Ast.SRule line h b = chain_rule_step_g gs ch nx) -> (forall vs : list Ast.sym, Datatypes.length vs = ChainSemGrouped.k1 gs -> ~ In (mn, vs) I) -> (forall vs : list Ast.sym, Datatypes.length vs = ChainSemGrouped.k2 gs -> ~ In (nx, vs) I) -> (forall vs : list Ast.sym, Datatypes.length vs = ChainSemGrouped.k1 gs -> ~ In (ch, vs) I) -> stable sym_lt P I T -> forall g : list Ast.sym, Datatypes.length g = Datatypes.length gs -> (exists l : list Ast.sym, forall v : Ast.sym, T (dom, g ++ v :: nil) <-> In v l) -> (forall v : Ast.sym, T (p, g ++ v :: nil) -> T (dom, g ++ v :: nil)) -> exists D : list Ast.sym, Sorted.StronglySorted sym_lt D /\ (forall v : Ast.sym, T (dom, g ++ v :: nil) <-> In v D) /\ (forall v : Ast.sym, T (mn, g ++ v :: nil) <-> hd_error D = Some v) /\ (forall a b : Ast.sym, T (nx, g ++ a :: b :: nil) <-> Chain.consecutive Ast.sym D a b) /\ (forall d : Ast.sym, T (ch, g ++ d :: nil) <-> In d D /\ (exists v : Ast.sym, T (p, g ++ v :: nil) /\ (d = v \/ sym_lt d v))).
 Proof. exact (@SumChainsSem.chain_pred_meaning). Qed.
 Print Assumptions C13_chain_pred_meaning.
 
